@@ -821,9 +821,14 @@ class Processor:
                 compare_node = (all_anchors[parentref]
                                 if parentref in all_anchors
                                 else None)
+                # A YAML Merge Key reference is matched as the Anchored Hash
+                # itself; a mere key which is spelled like an Anchor is not one
                 is_ymk_anchor = (
                     compare_node is not None
-                    and isinstance(compare_node, dict))
+                    and isinstance(compare_node, dict)
+                    and node is compare_node
+                    and not (parentref in parent
+                             and parent[parentref] is node))
 
                 if (is_ymk_anchor
                     and isinstance(parent, CommentedMap)
